@@ -96,6 +96,8 @@ def rekey(r):
                     return "C01:page-loop-livelock:" + "+".join(sorted(ks))
             return "C01:page-loop-livelock:" + "+".join(sorted(bs))
         return k
+    if k.startswith("memory:"):
+        k = "timeout:" + k[len("memory:"):]     # (a computation that exhausts the memory is a computation that does not end)
     if k.startswith("timeout:") and isinstance(d, dict) and d.get("nodes") and not nested_footnotes(d):
         # a slow or endless computation has no stable running function: it is named by the features of its document
         fs = features(d)
